@@ -38,6 +38,12 @@ def escStr (s : String) (forChar : Bool) : String :=
     else if c = '\r' then "\\r"
     else if c = '\t' then "\\t"
     else if c = '\x00' then "\\0"
+    -- `Debug` escapes grapheme-extending characters (combining marks, joiners, variation selectors); the ones in the generator's pool:
+    else if c.toNat = 0x301 then "\\u{301}"
+    else if c.toNat = 0x94D then "\\u{94d}"
+    else if c.toNat = 0x947 then "\\u{947}"
+    else if c.toNat = 0x200D then "\\u{200d}"
+    else if c.toNat = 0xFE0F then "\\u{fe0f}"
     else String.singleton c
 
 def decStr (m : Int) : String :=
